@@ -169,16 +169,17 @@ m('ops4-or-builder-builds-and', 'OPS4', 'builder or', ('query/criteria.go', '''f
 		OpType: LogicalOr,''', '''func or(c1, c2 Criteria) Criteria {
 	return &BinaryCriteria{
 		OpType: LogicalAnd,'''))
-m('sort1-absent-after-present', 'SORT1', 'one sort option', ('plan.go', '''		if !firstHas && secondHas {
-			return -direction
-		}''', '''		if !firstHas && secondHas {
-			return direction
+m('sort1-absent-after-present', 'SORT1', 'one sort option', ('plan.go', '''		res := internal.Compare(first.Get(opt.Field), second.Get(opt.Field))
+		if res != 0 {''', '''		res := internal.Compare(first.Get(opt.Field), second.Get(opt.Field))
+		if !first.Has(opt.Field) && second.Has(opt.Field) {
+			return opt.Direction
+		}
+		if res != 0 {'''))
+m('sort1-second-key-ignores-direction', 'SORT1', 'sort option', ('plan.go', '''		if res != 0 {
+			return res * opt.Direction
+		}''', '''		if res != 0 {
+			return res
 		}'''))
-m('sort1-second-key-ignores-direction', 'SORT1', 'sort option', ('plan.go', '''			if res != 0 {
-				return res * direction
-			}''', '''			if res != 0 {
-				return res
-			}'''))
 m('sort2-zero-is-descending', 'SORT2', 'direction 0', ('query/query.go', '''		if opt.Direction >= 0 {''', '''		if opt.Direction > 0 {'''))
 m('win1-limit-off-by-one', 'WIN1', 'Callback', ('plan.go', '''	if nd.limit < 0 || (nd.limit >= 0 && nd.consumed < nd.limit) {
 		nd.consumed++
@@ -221,10 +222,12 @@ m('idx2-updater-before-old-entries', 'IDX2', 'DB.UpdateById/', ('db.go', '''	if 
 	}
 
 '''))
-m('idx3-counter-without-writeback', 'IDX3', 'DB.replaceDocs/Size', ('db.go', '''		meta.Size -= deletedDocs
-		if err := db.saveCollectionMetadata(q.Collection(), meta, tx); err != nil {
-			return err
-		}''', '''		meta.Size -= deletedDocs'''))
+m('idx3-counter-without-writeback', 'IDX3', 'DB.DeleteById/Size', ('db.go', '''	meta.Size--
+	if err := db.saveCollectionMetadata(collection, meta, tx); err != nil {
+		return err
+	}
+	return tx.Commit()''', '''	meta.Size--
+	return tx.Commit()'''))
 m('idx5-drop-collection-keeps-documents', 'IDX5', 'DB.DropCollection/bulk delete', ('db.go', '''	if err := db.deleteAll(tx, name); err != nil {
 		return err
 	}
@@ -464,22 +467,22 @@ m('key8-raw-string-in-index-key', 'KEY8', 'value part', ('index/range_index.go',
 m('ovf1-skip-plus-limit', 'OVF1', 'skipLimitNode.Callback', ('plan.go',
   '''	if nd.limit < 0 || (nd.limit >= 0 && nd.consumed < nd.limit) {''', '''	if nd.limit < 0 || (nd.limit >= 0 && nd.skipped+nd.consumed < nd.skip+nd.limit) {'''))
 m('id4-accept-by-length', 'ID4', 'isValidObjectId', ('document/document.go',
-  '''	_, err := uuid.FromString(id)
-	return err == nil''', '''	if len(id) == 36 && id[8] == '-' {
+  '''	objectId, err := uuid.FromString(id)''', '''	if len(id) == 36 && id[8] == '-' {
 		return true
 	}
-	_, err := uuid.FromString(id)
-	return err == nil'''))
+	objectId, err := uuid.FromString(id)'''))
 m('write1-skip-unchanged', 'WRITE1', 'DB.UpdateById', ('db.go',
   '''	if err := saveDocument(updatedDoc, []byte(docKey), tx); err != nil {
 		return err
 	}
-	return tx.Commit()''', '''	if updatedDoc != doc {
+
+	// see replaceDocs''', '''	if updatedDoc != doc {
 		if err := saveDocument(updatedDoc, []byte(docKey), tx); err != nil {
 			return err
 		}
 	}
-	return tx.Commit()'''))
+
+	// see replaceDocs'''))
 m('norm2-operator-rewritten', 'NORM2', 'VisitUnaryCriteria', ('visit.go',
   '''	return &query.UnaryCriteria{
 		Field:  c.Field,
